@@ -27,6 +27,14 @@ func main() {
 	plan.Name = "dbg"
 	s, err := l1.RunHeaderSession(plan, func(s *l1.Session, st *l1.StepObs) {
 		fmt.Printf("STEP %s\n   pre=%d post=%d disc=%v panic=%q events=%d\n", s.Steps[len(s.Steps)-1], len(st.Pre)-1, len(st.Post)-1, st.Disc, st.Panic, len(st.Events))
+		if len(st.Events) > 0 && len(st.Events) < 40 {
+			for _, e := range st.Events {
+				fmt.Printf("      ev connected=%v h=%d hash=%s still=%v\n", e.Connected, e.Height, e.Header.BlockHash().String()[:8], e.StillStored)
+			}
+			for h, hd := range st.Pre {
+				fmt.Printf("      pre[%d]=%s\n", h, hd.BlockHash().String()[:8])
+			}
+		}
 		for _, f := range l1.CheckC01(s, st) {
 			fmt.Println("   C01:", f.Sig, f.What)
 		}
